@@ -312,7 +312,7 @@ def cases():
 
 
 def run(ctx):
-    n = ctx.share(1600 if ctx.quick else 40000)
+    n = ctx.share(8000 if ctx.quick else 80000)
     explore(ctx, cases(), body, n)
 
 
